@@ -166,6 +166,8 @@ def group_families(H, quick, obligations):
     for name, roots, budget in fams:
         alpha = (lambda roots: (lambda n: roots if n.depth == 1 else GROUP_LEAVES))(roots)
         out.append((name, make_factory(H, budget, alpha, 1200, lambda ex, it, root: obligations(ex, it, root, ref_fuel=250))))
+    for name, alpha, budget in TC.interplay_families(True, "ABCE" if quick else "ABCDE"):
+        out.append((name, make_factory(H, budget, alpha, 4000, lambda ex, it, root: obligations(ex, it, root, ref_fuel=400))))
     return out
 
 
